@@ -60,8 +60,8 @@ func buildScopeProgram(hist []scEvent) []*model.N {
 			add(model.Var(e.Name, K))
 		case "declL": // comma-list declaration
 			add(model.VarList([]string{e.Name, "l" + id}, []*model.N{K, model.Num(float64(10*(i+1) + 1))}))
-		case "declN": // declaration without initialiser, then a value
-			add(model.Var(e.Name, nil), model.Print(model.Id(e.Name)), model.ExprS(model.Asg(e.Name, K)))
+		case "declN": // declaration without initialiser (the name holds nil)
+			add(model.Var(e.Name, nil), model.Print(model.Id(e.Name)))
 		case "asg":
 			add(model.ExprS(model.Asg(e.Name, K)))
 		case "read":
